@@ -4,6 +4,7 @@
 #![allow(non_snake_case, unused)]
 use vstd::prelude::*;
 use vstd::std_specs::cmp::*;
+use vstd::std_specs::convert::TryIntoSpec;
 use std::cmp::Ordering;
 verus! {
 global size_of usize == 8;
@@ -11,6 +12,18 @@ global size_of usize == 8;
 //@ include prelude/setops_merklehash.rs
 // ASSUMED: core's derive(PartialEq) on `std::cmp::Ordering` is structural equality (vstd ships no spec for it)
 pub assume_specification [<Ordering as PartialEq>::eq] (a: &Ordering, b: &Ordering) -> (r: bool) ensures r == (*a == *b);
+
+// ASSUMED std behaviour: `bool::then_some(b, t)` is `if b { Some(t) } else { None }` (core definition; vstd ships no spec)
+pub assume_specification<T> [bool::then_some] (b: bool, t: T) -> (r: Option<T>)
+    ensures r == (if b { Some(t) } else { None::<T> });
+
+// ASSUMED std fact: the reflexive conversion u32 -> u32 (`impl<T, U: Into<T>> TryFrom<U> for T`, Error = Infallible) is
+// `Ok(x)`; vstd specifies the narrowing integer conversions only
+pub broadcast proof fn axiom_u32_try_into_u32(x: u32)
+    ensures
+        <u32 as TryIntoSpec<u32>>::obeys_try_into_spec(),
+        #[trigger] <u32 as TryIntoSpec<u32>>::try_into_spec(x) == Ok::<u32, <u32 as TryInto<u32>>::Error>(x),
+{ admit(); }
 
 // ---- derive(PartialEq) of the fieldless enum MDBSetOperation (R10 drops the derive): structural equality ---------
 impl PartialEqSpecImpl for MDBSetOperation {
@@ -86,28 +99,27 @@ spec fn key_table(k1: Option<MerkleHash>, k2: Option<MerkleHash>, op: MDBSetOper
 spec fn deref_opt(h: Option<&MerkleHash>) -> Option<MerkleHash> { match h { Some(x) => Some(*x), None => None } }
 spec fn as_pair(r: Option<[NextAction; 2]>) -> Option<(NextAction, NextAction)> { match r { Some(a) => Some((a[0], a[1])), None => None } }
 
-// ---- C10 stated on the table (property text -> clauses); proved for the table, and the code is proved equal to the table
-proof fn lemma_key_table_meaning(k1: Option<MerkleHash>, k2: Option<MerkleHash>, op: MDBSetOperation, acts: [NextAction; 2])
-    requires key_table(k1, k2, op) == Some((acts[0], acts[1])),
-    ensures
-        // progress
-        adv0(acts) || adv1(acts),
-        !is_merge(acts), !(acts[0] is Merge), !(acts[1] is Merge),
-        // a side without a current record is untouched
-        k1 is None ==> acts[0] is Nothing, k2 is None ==> acts[1] is Nothing,
-        // Union: the smaller key is copied and advanced, the larger untouched; equal keys: exactly one copy, both advance
-        op is Union ==> (match (k1, k2) {
+// ---- C10 stated from the property text, independently of the table; the code is proved to satisfy BOTH -------------
+spec fn key_meaning(k1: Option<MerkleHash>, k2: Option<MerkleHash>, op: MDBSetOperation, acts: [NextAction; 2]) -> bool {
+    // progress: some side advances
+    &&& adv0(acts) || adv1(acts)
+    // keyed records are never merged
+    &&& !(acts[0] is Merge) && !(acts[1] is Merge)
+    // a side without a current record is untouched
+    &&& (k1 is None ==> acts[0] is Nothing) && (k2 is None ==> acts[1] is Nothing)
+    // Union: the smaller key is copied and advanced, the larger untouched; equal keys: exactly one copy, both advance
+    &&& op is Union ==> (match (k1, k2) {
             (Some(a), Some(b)) => (hash_lt(a, b) ==> copied(acts[0]) && acts[1] is Nothing)
                 && (hash_lt(b, a) ==> copied(acts[1]) && acts[0] is Nothing)
                 && (a == b ==> n_written(acts) == 1 && adv0(acts) && adv1(acts)),
             (Some(a), None) => copied(acts[0]),
             (None, Some(b)) => copied(acts[1]),
             (None, None) => false,
-        }),
-        // Difference (second minus first): nothing of the first is ever written; the second's record is written iff
-        // the first is exhausted or its current key is larger (so, by sortedness, the key is not in the first);
-        // an equal key drops both
-        op is Difference ==> !copied(acts[0]) && (match (k1, k2) {
+        })
+    // Difference (second minus first): nothing of the first is ever written; the second's record is written iff the
+    // first is exhausted or its current key is larger (by sortedness the key is then not in the first); an equal key
+    // drops both; a smaller first key is skipped while the second waits
+    &&& op is Difference ==> !copied(acts[0]) && (match (k1, k2) {
             (Some(a), Some(b)) => (copied(acts[1]) <==> hash_lt(b, a))
                 && (a == b ==> adv0(acts) && adv1(acts) && n_written(acts) == 0)
                 && (hash_lt(a, b) ==> adv0(acts) && acts[1] is Nothing)
@@ -115,7 +127,12 @@ proof fn lemma_key_table_meaning(k1: Option<MerkleHash>, k2: Option<MerkleHash>,
             (Some(a), None) => adv0(acts) && n_written(acts) == 0,
             (None, Some(b)) => copied(acts[1]),
             (None, None) => false,
-        }),
+        })
+}
+// the table implies the property clauses (so the table is not just a transcript of the code)
+proof fn lemma_key_table_meaning(k1: Option<MerkleHash>, k2: Option<MerkleHash>, op: MDBSetOperation, acts: [NextAction; 2])
+    requires key_table(k1, k2, op) == Some((acts[0], acts[1])),
+    ensures key_meaning(k1, k2, op, acts),
 {
     match (k1, k2) {
         (Some(a), Some(b)) => { lemma_hash_order_total(a, b); }
@@ -129,6 +146,7 @@ proof fn lemma_key_table_meaning(k1: Option<MerkleHash>, k2: Option<MerkleHash>,
     ensures
         /*@C10*/ as_pair(r) == key_table(deref_opt(h1), deref_opt(h2), op),
         /*@C10*/ (h1 is None && h2 is None) <==> r is None,
+        /*@C10*/ r is Some ==> key_meaning(deref_opt(h1), deref_opt(h2), op, r->0),
 //@ body-start
     proof { if h1 is Some && h2 is Some { lemma_hash_order_total(*h1->0, *h2->0); } }
 //@ end
@@ -147,6 +165,34 @@ proof fn lemma_flag_superset(a: u32, b: u32)
     assert(((b & !a == 0) && (a & !b == 0)) <==> a == b) by (bit_vector);
 }
 
+// only the two defined flag bits may be set (bits 31 and 30; nothing in the repository ever sets another bit)
+spec fn known_flags(f: u32) -> bool { f & !(MDB_FILE_FLAG_WITH_VERIFICATION | MDB_FILE_FLAG_WITH_METADATA_EXT) == 0 }
+proof fn lemma_flag_consts()
+    ensures MDB_FILE_FLAG_WITH_VERIFICATION == 0x8000_0000u32, MDB_FILE_FLAG_VERIFICATION_MASK == 0x8000_0000u32,
+        MDB_FILE_FLAG_WITH_METADATA_EXT == 0x4000_0000u32, MDB_FILE_FLAG_METADATA_EXT_MASK == 0x4000_0000u32, MDB_DEFAULT_FILE_FLAG == 0u32,
+{
+    assert(1u32 << 31 == 0x8000_0000u32) by (bit_vector);
+    assert(1u32 << 30 == 0x4000_0000u32) by (bit_vector);
+}
+proof fn lemma_merge_flags(a: u32, b: u32)
+    ensures ({
+        let v: u32 = 0x8000_0000; let m: u32 = 0x4000_0000;
+        let h = (0u32 | (if (a & v != 0) || (b & v != 0) { v } else { 0u32 })) | (if (a & m != 0) || (b & m != 0) { m } else { 0u32 });
+        &&& h == (a | b) & (v | m)
+        &&& (a & !(v | m) == 0 && b & !(v | m) == 0) ==> h == a | b && a & !h == 0 && b & !h == 0
+    }),
+{
+    let v: u32 = 0x8000_0000; let m: u32 = 0x4000_0000;
+    let hv = if (a & v != 0) || (b & v != 0) { v } else { 0u32 };
+    let hm = if (a & m != 0) || (b & m != 0) { m } else { 0u32 };
+    assert(hv == (a | b) & v) by (bit_vector) requires v == 0x8000_0000u32, hv == (if (a & v != 0) || (b & v != 0) { v } else { 0u32 });
+    assert(hm == (a | b) & m) by (bit_vector) requires m == 0x4000_0000u32, hm == (if (a & m != 0) || (b & m != 0) { m } else { 0u32 });
+    let h = (0u32 | hv) | hm;
+    assert(h == (a | b) & (v | m)) by (bit_vector) requires h == (0u32 | hv) | hm, hv == (a | b) & v, hm == (a | b) & m;
+    assert((a & !(v | m) == 0 && b & !(v | m) == 0) ==> ((a | b) & (v | m)) == a | b) by (bit_vector);
+    assert(a & !(a | b) == 0 && b & !(a | b) == 0) by (bit_vector);
+}
+
 impl FileDataSequenceHeader {
 //@ extract mdb_shard/src/file_structs.rs in `impl FileDataSequenceHeader` fn compare_flag_superset
 //@ ret r
@@ -159,7 +205,48 @@ impl FileDataSequenceHeader {
 //@ body-start
     proof { lemma_flag_superset(header_a.file_flags, header_b.file_flags); lemma_flag_superset(header_b.file_flags, header_a.file_flags); }
 //@ end
+
+//@ extract mdb_shard/src/file_structs.rs in `impl FileDataSequenceHeader` fn contains_metadata_ext
+//@ ret r
+//@ contract
+    ensures r == (self.file_flags & MDB_FILE_FLAG_METADATA_EXT_MASK != 0),
+//@ end
+//@ extract mdb_shard/src/file_structs.rs in `impl FileDataSequenceHeader` fn contains_verification
+//@ ret r
+//@ contract
+    ensures r == (self.file_flags & MDB_FILE_FLAG_VERIFICATION_MASK != 0),
+//@ end
+//@ extract mdb_shard/src/file_structs.rs in `impl FileDataSequenceHeader` fn new
+//@ ret r
+//@ contract
+    requires
+        // the `unwrap()` of the conversion: the entry count fits u32 (callers' obligation)
+        <I as TryIntoSpec<u32>>::obeys_try_into_spec(), <I as TryIntoSpec<u32>>::try_into_spec(num_entries) is Ok,
+    ensures
+        r.file_hash == file_hash,
+        Ok::<u32, <I as TryInto<u32>>::Error>(r.num_entries) == <I as TryIntoSpec<u32>>::try_into_spec(num_entries),
+        r.file_flags == (MDB_DEFAULT_FILE_FLAG | (if contains_verification { MDB_FILE_FLAG_WITH_VERIFICATION } else { 0u32 })) | (if contains_metadata_ext { MDB_FILE_FLAG_WITH_METADATA_EXT } else { 0u32 }),
+//@ end
 }
+
+//@ extract mdb_shard/src/set_operations.rs region set_operation
+//@ from `let has_verification`
+//@ to `has_metadata_ext, );`
+//@ sig `fn merge_header(fh0: &FileDataSequenceHeader, fh1: &FileDataSequenceHeader) -> (header: FileDataSequenceHeader)`
+//@ epilogue `header`
+//@ contract
+    // `Merge` is only ever issued for two records of the same file (file_meaning: is_merge ==> same file hash)
+    requires fh0.file_hash == fh1.file_hash,
+    ensures
+        /*@C10*/ header.file_hash == fh0.file_hash,
+        /*@C10*/ header.num_entries == fh0.num_entries,
+        // the merged header carries the union of the two flag sets (over the defined flags: verification, metadata-ext)
+        /*@C10*/ header.file_flags == (fh0.file_flags | fh1.file_flags) & (MDB_FILE_FLAG_WITH_VERIFICATION | MDB_FILE_FLAG_WITH_METADATA_EXT),
+        /*@C10*/ (known_flags(fh0.file_flags) && known_flags(fh1.file_flags)) ==> header.file_flags == fh0.file_flags | fh1.file_flags,
+        /*@C10*/ (known_flags(fh0.file_flags) && known_flags(fh1.file_flags)) ==> flag_superset(header.file_flags, fh0.file_flags) && flag_superset(header.file_flags, fh1.file_flags),
+//@ body-start
+    proof { axiom_u32_try_into_u32(fh0.num_entries); lemma_flag_consts(); lemma_merge_flags(fh0.file_flags, fh1.file_flags); }
+//@ end
 
 // the complete table for file-info records: as the key table, except that under Union two records of the same file give
 // the richer variant (flag superset; first on ties) and a Merge when neither is richer
@@ -175,23 +262,26 @@ spec fn file_table(f1: Option<FileDataSequenceHeader>, f2: Option<FileDataSequen
 spec fn file_key(f: Option<FileDataSequenceHeader>) -> Option<MerkleHash> { match f { Some(x) => Some(x.file_hash), None => None } }
 spec fn deref_hdr(h: Option<&FileDataSequenceHeader>) -> Option<FileDataSequenceHeader> { match h { Some(x) => Some(*x), None => None } }
 
-proof fn lemma_file_table_meaning(f1: Option<FileDataSequenceHeader>, f2: Option<FileDataSequenceHeader>, op: MDBSetOperation, acts: [NextAction; 2])
-    requires file_table(f1, f2, op) == Some((acts[0], acts[1])),
-    ensures
-        adv0(acts) || adv1(acts),
-        !(acts[1] is Merge), acts[0] is Merge ==> is_merge(acts),
-        f1 is None ==> acts[0] is Nothing, f2 is None ==> acts[1] is Nothing,
-        // same file under Union: exactly one record written, both advance; it is the flag-superset side, a Merge iff neither
-        (op is Union && f1 is Some && f2 is Some && f1->0.file_hash == f2->0.file_hash) ==> {
+spec fn file_meaning(f1: Option<FileDataSequenceHeader>, f2: Option<FileDataSequenceHeader>, op: MDBSetOperation, acts: [NextAction; 2]) -> bool {
+    let same_file_union = op is Union && f1 is Some && f2 is Some && f1->0.file_hash == f2->0.file_hash;
+    &&& adv0(acts) || adv1(acts)
+    &&& !(acts[1] is Merge) && (acts[0] is Merge ==> is_merge(acts))
+    &&& (f1 is None ==> acts[0] is Nothing) && (f2 is None ==> acts[1] is Nothing)
+    // same file under Union: exactly one record written, both advance; it is the richer (flag-superset) side, and a
+    // Merge iff neither side's flags contain the other's
+    &&& same_file_union ==> {
             let a = f1->0.file_flags; let b = f2->0.file_flags;
             &&& n_written(acts) == 1 && adv0(acts) && adv1(acts)
             &&& copied(acts[0]) ==> flag_superset(a, b)
-            &&& copied(acts[1]) ==> flag_superset(b, a) && a != b
+            &&& copied(acts[1]) ==> flag_superset(b, a)
             &&& is_merge(acts) <==> (!flag_superset(a, b) && !flag_superset(b, a))
-        },
-        // in every other case the decision is the key decision on the file hashes
-        !(op is Union && f1 is Some && f2 is Some && f1->0.file_hash == f2->0.file_hash)
-            ==> key_table(file_key(f1), file_key(f2), op) == Some((acts[0], acts[1])),
+        }
+    // in every other case the decision is the key decision on the file hashes
+    &&& !same_file_union ==> key_meaning(file_key(f1), file_key(f2), op, acts)
+}
+proof fn lemma_file_table_meaning(f1: Option<FileDataSequenceHeader>, f2: Option<FileDataSequenceHeader>, op: MDBSetOperation, acts: [NextAction; 2])
+    requires file_table(f1, f2, op) == Some((acts[0], acts[1])),
+    ensures file_meaning(f1, f2, op, acts),
 {
     if f1 is Some && f2 is Some {
         lemma_flag_superset(f1->0.file_flags, f2->0.file_flags);
@@ -210,6 +300,7 @@ proof fn lemma_file_table_meaning(f1: Option<FileDataSequenceHeader>, f2: Option
     ensures
         /*@C10*/ as_pair(r) == file_table(deref_hdr(h1), deref_hdr(h2), op),
         /*@C10*/ (h1 is None && h2 is None) <==> r is None,
+        /*@C10*/ r is Some ==> file_meaning(deref_hdr(h1), deref_hdr(h2), op, r->0),
 //@ body-start
     proof {
         if h1 is Some && h2 is Some {
